@@ -833,6 +833,17 @@ def evaluate_quantified_formula(
             graph.reachable,
         )
         for path_to_nonterminal, _ in reference_tree.open_leaves()
+    ) or (
+        # An open leaf of the quantified (recursive) nonterminal type matches the
+        # quantifier itself, but its expansions contain further matches.
+        formula.bind_expression is None
+        and graph.reachable(
+            formula.bound_variable.n_type, formula.bound_variable.n_type
+        )
+        and any(
+            leaf.value == formula.bound_variable.n_type
+            for _, leaf in in_inst.open_leaves()
+        )
     )
 
     if isinstance(formula, ForallFormula):
